@@ -330,7 +330,7 @@ def r6(ctx):
       # pushed context is the cancel closure returned by Schedule
       push = [i.node for i in items if i.kind == 'PUSH']
       cancel = [U(s.targets[0]) for s in walk_no_nested(f.node) if isinstance(s, ast.Assign) and s.value is c]
-      okc = bool(push) and len(push[0].args) == 2 and U(push[0].args[0]) == 'self' and cancel and U(push[0].args[1]) == cancel[0]
+      okc = bool(push) and len(push[0].args) == 2 and U(push[0].args[0]) == 'self' and ((cancel and U(push[0].args[1]) == cancel[0]) or push[0].args[1] is c)
       ctx.ob('C01.R6', f, 'the cancel closure of that timer is pushed as this sink\'s context', okc, 'Push is %s' % ([U(p) for p in push]),
              'the response path cancels the timer through the pushed context')
     evs = [s for s in walk_no_nested(f.node) if isinstance(s, ast.Assign) and 'EVENT_KEY' in U(s.targets[0])]
